@@ -14,7 +14,8 @@
      exception types, solve_t and solve      .._all_statuses, C07_solve_start_end_refines, C07_solve_engines_agree, C07_both_reject_*,
                                              C07_max_iter_zero_agree; at binary64: C07_F_solve_t_engines_agree, C07_F_solve_engines_agree + instances
      "negative positions and offsets"        the solve_t theorems quantify over t in either spelling (py_pos) and over in-span offsets;
-                                             out-of-span offsets: C07_both_reject_offset_out_of_span
+                                             out-of-span offsets: C07_both_reject_offset_out_of_span (solve_t), case sc_off of
+                                             C07_wrapper_refines_python_solve_all_statuses + C07_solve_offset_instance (solve)
      "constants denote the same numbers"     inside the class `benign` (C07_benign_expressions_agree, C07_F_common_literal_uses_agree); refuted outside
                                              (C07_literals_denote_same_numbers_refuted, C07_real4_literal_refuted, C07_compiles_refuted)
    WHAT IS ONLY K / ORACLE
@@ -25,7 +26,8 @@
      * the theorems C07_wrapper_codes_are_template_codes / C07_literal_free_is_benign unfold definitions over regenerated constants /
        a syntactic inclusion: they tie the model to the source, they are not counted as covering a clause.
    KEPT FINDINGS (refuted below): literal kinds (5 signatures), _evaluate called directly at an infeasible period (the generated Python
-   has no guard), solve() with an out-of-span offset under errors <> 'raise' (later periods solved), solve() on an empty span. *)
+   has no guard).  Repaired and now proved: infeasible period (1354783), max_iter < 1 (131915c), line breaks (45adc65), default periods
+   by position (084a032), empty span (e0867c1), out-of-span offset in solve() under errors <> 'raise' (b027373). *)
 From Coq Require Import Ascii String ZArith List Bool.
 Import ListNotations.
 From Coq Require Import PrimFloat.
@@ -323,8 +325,8 @@ Section C07.
   (* the same beyond the finite regime (FSolveAllG.solve_okG): every period the solve REACHES either runs finite passes
      ('.' / 'F'), or lies in the regime of C07_wrapper_refines_python_solve_t ('.', 'F', 'S' under errors='skip', 'E' +
      SolutionError under errors='raise'), or starts from non-finite check values under errors='raise' (SolutionError, no
-     status), or has an offset that leaves the span under errors='raise' (IndexError); nothing is asked of periods after the
-     one at which both engines stop *)
+     status), or has an offset that leaves the span (IndexError and nothing copied, whatever `errors` is: fix b027373), or has
+     no room for the lags / leads (IndexError, fix 1354783); nothing is asked of periods after the one at which both engines stop *)
   Theorem C07_wrapper_refines_python_solve_all_statuses (evf : Z -> vals num -> vals num) (ev : hook num) fm d o n m ec fc fl ps s :
     (0 < m)%nat -> rows_ok m (check d) -> rows_ok m (endo d) ->
     fm_endo fm = endo_nums d -> fm_lags fm = Z.of_nat (lags d) -> fm_leads fm = Z.of_nat (leads d) ->
@@ -407,8 +409,8 @@ Section C07.
       (mkState (seeded num zero d o (vals_of s) p) (upd p Failed (status s)) (upd p 0 (iters s)) (log s ++ [EvBefore t]), out).
   Proof. exact (max_iter_zero_agree num sub absf ltb isfin zero evf ev before after fm d o t s p n m). Qed.
 
-  (* solve(start=, end=): both engines select the same periods (defaults by position since 7cd6323 / 084a032; IndexError when the
-     span is too short for the lags / leads) and then agree as in C07_wrapper_refines_python_solve_all_statuses *)
+  (* solve(start=, end=): both engines select the same periods (SolutionError on an empty span, e0867c1; defaults by position since
+     7cd6323 / 084a032; IndexError when the span is too short for the lags / leads) and then agree as in C07_wrapper_refines_python_solve_all_statuses *)
   Theorem C07_solve_start_end_refines (evf : Z -> vals num -> vals num) (ev : hook num) fm d o n m ec fc fl start stop s :
     (0 < m)%nat -> rows_ok m (check d) -> rows_ok m (endo d) ->
     fm_endo fm = endo_nums d -> fm_lags fm = Z.of_nat (lags d) -> fm_leads fm = Z.of_nat (leads d) ->
@@ -416,13 +418,12 @@ Section C07.
     (forall idx v, shape n m v -> shape n m (evf idx v)) ->
     w_ec (errors o) = Some ec -> w_fc fl = Some fc ->
     fail_raise o = match fl with FRaise => true | _ => false end ->
-    (0 < n)%nat -> shape n m (vals_of s) -> length (status s) = n ->
+    shape n m (vals_of s) -> length (status s) = n ->
     (forall ps, sel_positions d n start stop = inl ps -> solve_okG num sub absf ltb isfin zero evf ev fm d o n ec ps (vals_of s)) ->
     agree num (w_solve_se num sub absf ltb isfin zero evf fm d o fl start stop s)
               (py_solve_se num sub absf ltb isfin zero ev (no_hook num) (no_hook num) d o start stop s).
   Proof. intros H1 H2 H3 H4 H5 H6 H7 H8 H9 H10 H11.
          exact (w_solve_se_refines num sub absf ltb isfin zero evf ev fm d o n m ec fc fl H1 H2 H3 H4 H5 H6 H7 H8 H9 H10 H11 start stop s). Qed.
-  (* (the span must have a period: see C07_empty_span_refuted) *)
 End C07.
 Print Assumptions C07_literal_free_expressions_agree.
 Print Assumptions C07_benign_expressions_agree.
@@ -574,20 +575,22 @@ Theorem C07_max_iter_zero_instance :
 Proof. exact max_iter_zero_instance. Qed.
 Print Assumptions C07_max_iter_zero_instance.
 
-(* solve() of a model WITHOUT periods: SolutionError from the Python engine, IndexError from the Fortran engine (kept finding; the
-   guard `0 < n` of C07_solve_start_end_refines excludes exactly this) *)
-Theorem C07_empty_span_refuted :
+(* solve() of a model WITHOUT periods: SolutionError from both engines (binary64 instance of C07_solve_start_end_refines at n = 0;
+   before fix e0867c1: IndexError from FortranEngine.solve) *)
+Theorem C07_empty_span_instance :
   snd (P_solve_se no_or prog1 desc1 (opts1 100 0 true ERaise) None None state_empty) = XL (Raise (SolutionError None)) /\
-  snd (F_solve_se no_or prog1 fmod1 desc1 (opts1 100 0 true ERaise) FRaise None None state_empty) = XL (Raise IndexError).
-Proof. exact empty_span_witness. Qed.
-Print Assumptions C07_empty_span_refuted.
+  snd (F_solve_se no_or prog1 fmod1 desc1 (opts1 100 0 true ERaise) FRaise None None state_empty) = XL (Raise (SolutionError None)).
+Proof. exact empty_span_instance. Qed.
+Print Assumptions C07_empty_span_instance.
 
-(* solve with an offset that leaves the span at the first period, errors <> 'raise': same exception, different values *)
-Theorem C07_solve_offset_values_refuted :
+(* solve with an offset that leaves the span at the first period, errors='skip': IndexError from both engines and the values
+   untouched by both (binary64 instance of case sc_off of C07_wrapper_refines_python_solve_all_statuses; before fix b027373 the
+   Fortran engine had already solved and stored period 3) *)
+Theorem C07_solve_offset_instance :
   let o := opts1 100 (-2) true ESkip in
   snd (P_solve no_or prog1 desc1 o [1; 2; 3]%nat state1) = XL (Raise IndexError) /\
   snd (F_solve no_or prog1 fmod1 desc1 o FRaise [1; 2; 3]%nat state1) = XL (Raise IndexError) /\
   list_eqb (list_eqb feq_bits) (vals_of (fst (P_solve no_or prog1 desc1 o [1; 2; 3]%nat state1))) (vals_of state1) = true /\
-  list_eqb (list_eqb feq_bits) (vals_of (fst (F_solve no_or prog1 fmod1 desc1 o FRaise [1; 2; 3]%nat state1))) (vals_of state1) = false.
-Proof. exact solve_offset_witness. Qed.
-Print Assumptions C07_solve_offset_values_refuted.
+  list_eqb (list_eqb feq_bits) (vals_of (fst (F_solve no_or prog1 fmod1 desc1 o FRaise [1; 2; 3]%nat state1))) (vals_of state1) = true.
+Proof. exact solve_offset_instance. Qed.
+Print Assumptions C07_solve_offset_instance.
